@@ -73,7 +73,13 @@ Definition flush (s : st) : st :=
        (nc s) (np s) (saf s) (flushing s).
 
 (* ---------------------------------------------------------------- queries *)
-Inductive qkind := SelEnt | SelCol | Count | Core | Get | LazyP | Children | GetP | Refresh | Legacy | Scalars.
+Inductive qkind := SelEnt | SelCol | Count | Core | Get | LazyP | Children | GetP | Refresh | Legacy | Scalars
+  | ScalarCore    (* Session.scalar(select(count()).select_from(<Table>)) : Core statement, scalar fast path *)
+  | ScalarText    (* Session.scalar(text("select count(*) from c")) *)
+  | ExecText      (* Session.execute(text("select id from c where val >= :a order by id")) *)
+  | ScalarOrm     (* Session.scalar(select(count()).select_from(C)) : ORM statement *)
+  | ScalarsCore   (* Session.scalars(<Core select of c.id>) *)
+  | ConnExec.     (* Session.connection().execute(<Core select>) : not a Session execution, never autoflushes *)
 Inductive qmode := MDefault | MNoAutoflushBlock | MExecOption.
 
 (* Session._autoflush: `if self.autoflush and not self._flushing` *)
@@ -81,8 +87,11 @@ Definition af_guard (autoflush flushing_ : bool) : bool := autoflush && negb flu
 (* does the entry point reach an effective session._autoflush()?  no_autoflush sets Session.autoflush to
    False for the block; the "autoflush" execution option is consumed by orm_pre_session_exec - ORM
    statements only: a Core statement autoflushes unconditionally (issue 9809) *)
-Definition is_core (k : qkind) : bool := match k with Core => true | _ => false end.
+Definition is_core (k : qkind) : bool :=
+  match k with Core | ScalarCore | ScalarText | ExecText | ScalarsCore => true | _ => false end.
+Definition is_conn (k : qkind) : bool := match k with ConnExec => true | _ => false end.
 Definition enabled (k : qkind) (m : qmode) (s : st) : bool :=
+  if is_conn k then false else
   match m with
   | MDefault => af_guard (saf s) (flushing s)
   | MNoAutoflushBlock => af_guard false (flushing s)
@@ -126,8 +135,9 @@ Definition exec (k : qkind) (m : qmode) (a : Z) (s : st) : st * res :=
       let (s2, os) := load_rows (sel_val a (dbc s1)) s1 in (s2, map ent os)
   | SelCol =>
       let s1 := autoflush_then k m s in (s1, map (fun p : N * (Z * N) => [zN (fst p); fst (snd p)]) (sel_pid an (dbc s1)))
-  | Count => let s1 := autoflush_then k m s in (s1, [[Z.of_nat (length (dbc s1))]])
-  | Core | Scalars =>
+  | Count | ScalarCore | ScalarText | ScalarOrm =>
+      let s1 := autoflush_then k m s in (s1, [[Z.of_nat (length (dbc s1))]])
+  | Core | Scalars | ExecText | ScalarsCore | ConnExec =>
       let s1 := autoflush_then k m s in (s1, map (fun p : N * (Z * N) => [zN (fst p)]) (sel_val a (dbc s1)))
   | Get =>
       match find_ident an (cs s) with
